@@ -1,5 +1,5 @@
 """C10 -- MPS truncation and canonical form honour their contract."""
-from contracts import mps_utils
+from contracts import mps_canon, mps_utils
 
 ID = "C10"
 LEVEL = "proof"
@@ -7,10 +7,10 @@ REPLAY = "replay/c10.py"
 
 
 def build(reg):
-    mps_utils.register(reg, "C10")
+    targets = mps_canon.register(reg, "C10")        # registers contracts/mps_utils.py as well
     U = mps_utils.UTILS
     return dict(
-        targets=[f"{U}:_determine_cutoff_index", f"{U}:split_matrix"],
+        targets=[f"{U}:_determine_cutoff_index", f"{U}:split_matrix", f"{U}:split_matrix[isometry]"] + targets,
         not_decided=[],
         trusted=["torch.linalg.eigh returns ascending real eigenvalues and a unitary matrix (A4)"],
     )
